@@ -24,7 +24,7 @@ def gen_converge(r, tier):
         ops += ["#case converge", f"sn.new kind={kind} win={win} avg={fx(a0)}"]
         for k in range(r.range(5, 80)):
             if r.chance(0.15):
-                ops.append("sn.poll read=" + r.pick(["perm", "other", "garbage", "empty"]))
+                ops.append("sn.poll read=" + r.pick(["perm", "other", "garbage", "empty", "blank"]))
             else:
                 ops.append(f"sn.poll read=ok:{c}")
     return ops
